@@ -406,44 +406,7 @@ func runC20(c *Ctx) {
 	// client request
 	if cw := w.Method(yubiPkg, "client", "Wait"); cw != nil {
 		c.Saw(cw)
-		ok := false
-		var reqv0 ssa.Value
-		w.Focus(cw)
-		for _, call := range w.callsInDeep(cw) {
-			if callee := call.Common().StaticCallee(); callee != nil && callee == clientExchange(w) {
-				reqv := w.canon(cw, call.Common().Args[len(call.Common().Args)-1])
-				reqv0 = reqv
-				ex := w.Expr(reqv)
-				// append([1]byte{wait}[:], code)
-				ok = strings.Contains(ex, "builtin:append") && findStoreOf(w, reqv, "p1")
-				// or the two-byte literal []byte{wait, code}
-				if sl, isSl := reqv.(*ssa.Slice); isSl && !ok {
-					if al, isAl := sl.X.(*ssa.Alloc); isAl && arrayLen(al.Type()) == 2 {
-						if refs := al.Referrers(); refs != nil {
-							for _, r := range *refs {
-								if ia, isIA := r.(*ssa.IndexAddr); isIA {
-									if k, isK := intConst(ia.Index); isK && k == 1 {
-										if rr := ia.Referrers(); rr != nil {
-											for _, u := range *rr {
-												if st, isSt := u.(*ssa.Store); isSt && w.Expr(st.Val) == "p1" {
-													ok = true
-												}
-											}
-										}
-									}
-								}
-							}
-						}
-					}
-				}
-			}
-		}
-		if !ok && reqv0 != nil {
-			if parts, isSeq := w.byteSeq(cw, reqv0, 0); isSeq && len(parts) == 2 && parts[0].one != nil && parts[1].one != nil {
-				_, isK := intConst(w.canon(cw, parts[0].one))
-				ok = isK && w.Expr(parts[1].one) == "p1"
-			}
-		}
+		ok := clientWaitCarriesCode(w, cw)
 		c.Check(ok, "R3.loop", "client.Wait|request carries the code", w.FnPos(cw), "append([]byte{wait}, code)", "the client's wait request does not carry the caller's code")
 	} else {
 		c.Unresolved("R3.loop", "(*yubiagent.client).Wait")
@@ -858,4 +821,48 @@ func sharedLockOrigin(w *World, v ssa.Value, depth int) string {
 		}
 	}
 	return ""
+}
+
+// clientWaitCarriesCode: the request the client's Wait sends is [wait code, <its parameter>] - the caller's code as the
+// second byte, as it is (append([]byte{wait}, code), []byte{wait, code}, or any byte sequence with those two parts).
+func clientWaitCarriesCode(w *World, cw *ssa.Function) bool {
+	ok := false
+	var reqv0 ssa.Value
+	w.Focus(cw)
+	for _, call := range w.callsInDeep(cw) {
+		if callee := call.Common().StaticCallee(); callee != nil && callee == clientExchange(w) {
+			reqv := w.canon(cw, call.Common().Args[len(call.Common().Args)-1])
+			reqv0 = reqv
+			ex := w.Expr(reqv)
+			// append([1]byte{wait}[:], code)
+			ok = strings.Contains(ex, "builtin:append") && findStoreOf(w, reqv, "p1")
+			// or the two-byte literal []byte{wait, code}
+			if sl, isSl := reqv.(*ssa.Slice); isSl && !ok {
+				if al, isAl := sl.X.(*ssa.Alloc); isAl && arrayLen(al.Type()) == 2 {
+					if refs := al.Referrers(); refs != nil {
+						for _, r := range *refs {
+							if ia, isIA := r.(*ssa.IndexAddr); isIA {
+								if k, isK := intConst(ia.Index); isK && k == 1 {
+									if rr := ia.Referrers(); rr != nil {
+										for _, u := range *rr {
+											if st, isSt := u.(*ssa.Store); isSt && w.Expr(st.Val) == "p1" {
+												ok = true
+											}
+										}
+									}
+								}
+							}
+						}
+					}
+				}
+			}
+		}
+	}
+	if !ok && reqv0 != nil {
+		if parts, isSeq := w.byteSeq(cw, reqv0, 0); isSeq && len(parts) == 2 && parts[0].one != nil && parts[1].one != nil {
+			_, isK := intConst(w.canon(cw, parts[0].one))
+			ok = isK && w.Expr(parts[1].one) == "p1"
+		}
+	}
+	return ok
 }
